@@ -5,6 +5,7 @@
        [k |-> "bin", op, a, b, d]               register d := register a  op  register b   (converted to d's type)
        [k |-> "cas", op, a, d]                  register d op= register a                (compound assignment)
        [k |-> "neg", a, d]                      register d := - register a
+       [k |-> "mov", a, d]                      register d := register a                 (plain assignment / conversion)
        [k |-> "cmp", a, b]                      the six comparisons of two registers      (no state change)
        [k |-> "fromint", r, vi]                 register r := its type constructed from built-in integer number vi
        [k |-> "toflt", a]                       register a converted to double            (no state change)
@@ -34,6 +35,9 @@ Cas == \E op \in Ops, a \in loaded, d \in loaded :
 NegStep == \E a \in loaded, d \in 1..NRegs :
             /\ hist' = Append(hist, [k |-> "neg", a |-> a, d |-> d])
             /\ loaded' = loaded \cup {d}
+MovStep == \E a \in loaded, d \in 1..NRegs :
+            /\ hist' = Append(hist, [k |-> "mov", a |-> a, d |-> d])
+            /\ loaded' = loaded \cup {d}
 CmpStep == \E a \in loaded, b \in loaded :
             /\ hist' = Append(hist, [k |-> "cmp", a |-> a, b |-> b])
             /\ UNCHANGED loaded
@@ -51,7 +55,7 @@ ToFlt == \E a \in loaded :
             /\ UNCHANGED loaded
 Next == /\ Len(hist) < Depth
         /\ IF Len(hist) < 2 THEN Load
-           ELSE (Load \/ Step \/ Step \/ Step \/ Cas \/ NegStep \/ CmpStep \/ FromInt \/ FromFlt \/ ToFlt \/ IncDec)
+           ELSE (Load \/ Step \/ Step \/ Step \/ Cas \/ NegStep \/ MovStep \/ CmpStep \/ FromInt \/ FromFlt \/ ToFlt \/ IncDec)
 Spec == Init /\ [][Next]_<<hist, loaded>>
 Emit == Len(hist) = Depth => CSVWrite("%1$s", <<ToJson(hist)>>, Out)
 =============================================================================
